@@ -175,6 +175,19 @@ void Parser::ParserImpl::parseDecl() {
     parseBindingDecl();
     break;
 
+  case Token::Kind::Indentation: {
+    // An indented line that holds only a comment is skipped by Ninja.
+    Token indent = tok;
+    consumeToken();
+    if (tok.tokenKind == Token::Kind::Newline) {
+      consumeToken();
+    } else if (tok.tokenKind != Token::Kind::EndOfFile) {
+      error("unexpected token", indent);
+      skipPastEOL();
+    }
+    break;
+  }
+
   default:
     error("unexpected token");
     skipPastEOL();
